@@ -353,23 +353,23 @@ def sortCmd (c : Nat) (d : Nat) (args : List Arg) (cis : List CI) : M (Except Er
       | some (.set _) | some (.list _) | some (.zset _) => false
       | some _ => true
     if wrong then return .error Msgs.WRONGTYPE_MSG
+    -- `list(key.value)`: for a set the iteration order is a recorded hint (taken on entry, as the harness records it)
+    let items? : Option (List Bytes) ← match key.val with
+      | none => pure (some [])
+      | some (.list l) => pure (some l)
+      | some (.zset z) => pure (some (z.byscore.map Prod.snd))
+      | some (.set s) => do
+        let st ← get
+        match st.picks with
+        | p :: restp =>
+          if p.length == s.length && p.all s.contains && s.all p.contains then
+            set { st with picks := restp }; pure (some p)
+          else pure none
+        | [] => pure none
+      | some _ => pure (some [])
     match parseSortOpts (Cmd.rawArgs rest) {} with
     | .error e => return .error e
     | .ok o =>
-      -- `list(key.value)`: for a set the iteration order is a recorded hint
-      let items? : Option (List Bytes) ← match key.val with
-        | none => pure (some [])
-        | some (.list l) => pure (some l)
-        | some (.zset z) => pure (some (z.byscore.map Prod.snd))
-        | some (.set s) => do
-          let st ← get
-          match st.picks with
-          | p :: restp =>
-            if p.length == s.length && p.all s.contains && s.all p.contains then
-              set { st with picks := restp }; pure (some p)
-            else pure none
-          | [] => pure none
-        | some _ => pure (some [])
       match items? with
       | none => fault "sort: set order hint missing or not a permutation"; return .error "model: bad hint"
       | some items =>
